@@ -194,3 +194,18 @@ Print Assumptions C08_sys_no_foreign_reply.
 Print Assumptions C08_sys_registration_good.
 Print Assumptions C08_sys_young_if_few.
 Print Assumptions C08_source_request_id.
+(* ---- the CURRENT source of AdapterProxy.Recv is the model's lookup step ----
+   regenerated from tars/adapter.go on every run (Xlate/AdapterRecvEquiv.v): id 0 -> push callback, one-way -> dropped, else the
+   pending table is looked up BY THE PACKET'S ID and the packet offered to that entry's channel only (with a timer of
+   conf.ReadTimeout), nothing when there is no entry - the actions of the model's LLookup outcome. *)
+From TarsV Require Import Xlate.AdapterRecvEquiv.
+Theorem C08_source_recv_lookup : forall (p : packet) (t : list (Z * nat)) ptype read_timeout sel out,
+  (ptype =? k_basef_TARSONEWAY)%Z = p_oneway p ->
+  out_of (tr_adapter_Recv read_timeout (match lookup (p_id p) t with Some _ => true | None => false end) ptype (p_id p) sel out)
+  = Some (out ++ acts_of (lookup_pc p t) read_timeout)%list.
+Proof. exact AdapterRecvEquiv.tr_adapter_Recv_equiv. Qed.
+Theorem C08_source_recv_lookup_is_step : forall s r rc, nth_error (recvs s) r = Some rc -> r_pc rc = RStart ->
+  step s (LLookup r) = Some {| table := table s; calls := calls s; recvs := upd r (set_rpc rc (lookup_pc (r_pkt rc) (table s))) (recvs s) |}.
+Proof. exact AdapterRecvEquiv.lookup_pc_is_step. Qed.
+Print Assumptions C08_source_recv_lookup.
+Print Assumptions C08_source_recv_lookup_is_step.
